@@ -7,8 +7,11 @@ A job is executed in a sandbox directory of its own with a fresh `API()` object:
   files / pre   files to create (inputs / pre-existing clutter),  cwd  working directory inside the sandbox
   contexts      list of option dicts for `API.configure(options=…)` (`{ROOT}` = absolute sandbox root)
   calls         [{"op": "parse", "ctx": i, "idl": spelling} | {"op": "generate", "gc": k, "target": t, "clean": b} | {"op": "report", "gc": k}]
-The observation: per call the slice of the write log, exception class / diagnostics, for a parse the dumped
-declarations; the configuration fields the model needs as the implementation validated them; directory
+  snapshot_calls  true: a directory snapshot around every call (`created` / `deleted` per call)
+A configuration that `API.configure` refuses is an observation (`configure[i]`), calls on it are `skipped`.
+The observation: per call the slice of the write log, exception class / diagnostics (with the message text, sandbox
+root replaced: C10 compares it between runs of the same implementation, never with a model), for a parse the dumped
+declarations (with the source position: file relative to the sandbox root, line, column); the configuration fields the model needs as the implementation validated them; directory
 snapshots before/after; the parsed report and its validation against `API().processed_files_model`.
 """
 from __future__ import annotations
@@ -92,15 +95,27 @@ def decl_dump(t) -> dict:
         "ord": any(str(getattr(d, "value", d)) == "ord" for d in getattr(t, "deriving", [])),
         "async": any(getattr(m, "asynchronous", False) for m in getattr(t, "methods", [])),
         "content": f"{os.path.basename(str(pos.file)) if pos and pos.file else ''}:{pos.start.line if pos and pos.start else 0}:{pos.start.col if pos and pos.start else 0}",
+        # where the declaration stands in the source (the working directory is still the job's)
+        "src": {"file": os.path.abspath(str(pos.file)) if pos and pos.file else None,
+                "line": pos.start.line if pos and pos.start else None, "col": pos.start.col if pos and pos.start else None},
     }
 
 
 def diag_dump(e) -> dict:
     p = getattr(e, "position", None)
-    return {"cls": type(e).__name__,
+    try:
+        msg = str(getattr(e, "description", None) or e)
+    except Exception as x:      # str() of some exception lists raises
+        msg = f"<unprintable {type(x).__name__}>"
+    return {"cls": type(e).__name__, "msg": msg[:400],
             "file": os.path.basename(str(p.file)) if p is not None and getattr(p, "file", None) is not None else None,
             "line": p.start.line if p is not None and getattr(p, "start", None) is not None else None,
             "col": p.start.col if p is not None and getattr(p, "start", None) is not None else None}
+
+
+def norm_diag(d: dict, root: str) -> dict:
+    d["msg"] = d.get("msg", "").replace(root, "{ROOT}")
+    return d
 
 
 def tables() -> dict:
@@ -178,29 +193,54 @@ def run_job(job: dict, base: Path, idx: int) -> dict:
         api = API()
         frw = api._file_reader_writer
         contexts = []
+        obs["configure"] = []
         for opts in job["contexts"]:
-            cctx = api.configure(options=subst(opts, R))
+            try:
+                cctx = api.configure(options=subst(opts, R))
+            except ApplicationException as e:
+                # a refused configuration is an observation of its own (C10: the same refusal under every hash seed)
+                contexts.append(None)
+                obs["configure"].append({"ok": False, "exc": {"cls": type(e).__name__, "msg": str(e)[:400].replace(R, "{ROOT}"), "app": True},
+                                         "diags": [norm_diag(diag_dump(e), R)]})
+                obs["cfg"].append({})
+                obs["meta"].append({"supportLib": True, "report": None, "include_dirs": []})
+                continue
+            obs["configure"].append({"ok": True, "exc": None, "diags": []})
             contexts.append(cctx)
             gen = cctx.config.generate
             obs["cfg"].append({k: gcfg_dump(k, getattr(gen, k)) for k in ("cpp", "java", "jni", "objc", "objcpp", "cppcli", "yaml")
                                if k in gen.model_fields_set and getattr(gen, k) is not None})
-            obs["meta"].append({"supportLib": bool(gen.support_lib_sources),
+            obs["meta"].append({"configured_targets": [t.key for t in cctx.configured_targets],
+                                "fields_set": sorted(gen.model_fields_set),
+                                "supportLib": bool(gen.support_lib_sources),
                                 "report": str(gen.list_processed_files) if gen.list_processed_files is not None else None,
                                 "include_dirs": [str(x) for x in gen.include_dirs]})
         results = []
+        percall = bool(job.get("snapshot_calls"))
         for call in job["calls"]:
             n0 = len(getattr(frw, "_verif_log", []))
             rec = {"ok": True, "exc": None, "diags": []}
+            snap0 = snapshot(root) if percall else None
             try:
-                if call["op"] == "parse":
+                if call["op"] == "parse" and contexts[call["ctx"]] is None:
+                    results.append(None)
+                    rec["ok"] = False
+                    rec["skipped"] = "context was refused by configure"
+                elif call["op"] != "parse" and results[call["gc"]] is None:
+                    rec["ok"] = False
+                    rec["skipped"] = "no parse result"
+                elif call["op"] == "parse":
                     try:
                         gc = contexts[call["ctx"]].parse(subst(call["idl"], R))
                         results.append(gc)
                         rec["defs"] = [decl_dump(t) for t in gc.defs]
+                        for d in rec["defs"]:
+                            if d["src"]["file"]:
+                                d["src"]["file"] = os.path.relpath(d["src"]["file"], R)
                     except ApplicationExceptionList as e:
                         results.append(None)
                         rec["ok"] = False
-                        rec["diags"] = [diag_dump(x) for x in e.items]
+                        rec["diags"] = [norm_diag(diag_dump(x), R) for x in e.items]
                 elif call["op"] == "generate":
                     gc = results[call["gc"]]
                     gc.generate(call["target"], clean=bool(call.get("clean")))
@@ -209,8 +249,8 @@ def run_job(job: dict, base: Path, idx: int) -> dict:
                     rec["report_path"] = str(p) if p is not None else None
             except ApplicationException as e:
                 rec["ok"] = False
-                rec["exc"] = {"cls": type(e).__name__, "msg": str(e)[:200], "app": True}
-                rec["diags"] = [diag_dump(e)]
+                rec["exc"] = {"cls": type(e).__name__, "msg": str(e)[:400].replace(R, "{ROOT}"), "app": True}
+                rec["diags"] = [norm_diag(diag_dump(e), R)]
                 if call["op"] == "parse":
                     results.append(None)
             except Exception as e:  # internal error
@@ -219,6 +259,11 @@ def run_job(job: dict, base: Path, idx: int) -> dict:
                 if call["op"] == "parse":
                     results.append(None)
             rec["log"] = [list(x) for x in getattr(frw, "_verif_log", [])[n0:]]
+            if percall:
+                snap1 = snapshot(root)
+                rec["created"] = sorted(p for p in snap1 if p not in snap0 or snap0[p] != snap1[p])
+                rec["deleted"] = sorted(p for p in snap0 if p not in snap1)
+                rec["existing"] = sorted(snap0)
             if job.get("normalized"):
                 # digests that do not depend on where the sandbox is: the sandbox root is replaced in the bytes
                 files = {}
